@@ -289,14 +289,32 @@ pub fn c08(tier: Tier) -> i32 {
         let mut mirror_lhs: Option<Option<Dfa>> = None;
         let mut mirror_rhs: Option<Option<Dfa>> = None;
         let mut disagreements = 0u32;
-        for (i, (t, cs)) in ex.states.iter().enumerate() {
+        // all explored transitions: the BFS tree (one per state) and the cross edges; a cross edge
+        // is judged only when a real answer differs from its automaton's
+        let mut buffer = String::new();
+        let edges = (0..ex.states.len()).map(|i| (u32::MAX, '\0', i, false)).chain(ex.cross.iter().map(|(from, ch, to)| (*from, *ch, *to as usize, true)));
+        for (from, ch, to, is_cross) in edges {
+            let is_cross = &is_cross;
+            let (t, cs) = &ex.states[to];
             if !cs.is_canonical_end() {
                 continue;
             }
-            let p = strings[i].as_str();
+            let p: &str = if *is_cross {
+                buffer.clear();
+                buffer.push_str(strings[from as usize].as_str());
+                buffer.push(ch);
+                buffer.as_str()
+            }
+            else {
+                strings[to].as_str()
+            };
             let lhs_model = automata::acc(&dfas, t, 0);
             let rhs_model = automata::acc(&dfas, t, 1);
             let lhs_real = g.is_match(p);
+            if *is_cross && lhs_real == lhs_model {
+                bump(c, "traces_validated_against_impl", 1);
+                continue;
+            }
             let rhs_real = real_rhs(&prefix, postfix.as_ref(), p);
             bump(c, "traces_validated_against_impl", 2);
             if lhs_real != lhs_model {
